@@ -368,10 +368,12 @@ def obligations(tier):
         obs.append(update_ob(prog, cls))
     for cls in ["ConjugateFactor", "OneRankFactor", "LinearFactor", "GaussianMeasure", "GaussianDiagMeasure"] + list(drivers.COND_CLASSES):
         obs.append(default_ctor_ob(prog, cls))
+    from .common import endpoint_contiguity_ob
+    obs.append(endpoint_contiguity_ob(model.load(), "indexlist"))
     return obs
 
 
-FLOORS = {"group:parametric": 540, "group:slice": 20, "group:update": 2, "group:coverage": 1, "group:ctor-default": 9}
+FLOORS = {"group:parametric": 540, "group:slice": 20, "group:update": 2, "group:coverage": 1, "group:ctor-default": 9, "group:indexlist": 1}
 LEVEL = "proof"
 EXPLANATION = ("Batch parametricity: every public operation of every factor / measure / density / linear-conditional class is interpreted in its "
                "batch contexts and each returned array's normal form is inspected: every tensor that carries an operand's component index must carry "
